@@ -22,7 +22,7 @@ contract(M + "_special_constraints_eq_zero", props=["C02"], trusted=True,
                   "implies(result, den(pcbo) - old(den(pcbo)) >= 0)",
                   "implies(result and bden(P) == 0, den(pcbo) == old(den(pcbo)))",
                   "implies(result and bden(P) != 0, den(pcbo) - old(den(pcbo)) >= lam)",
-                  "wf(pcbo)", "pcbo._ancilla == old(pcbo._ancilla)"],
+                  "wf(pcbo)", "pcbo._ancilla == old(pcbo._ancilla)", "implies(old(bk(pcbo)), bk(pcbo))"],
          note="syntactic special form a - b*c == 0 (reads key/value order of a two-term model): contract assumed, "
               "checked by the bounded stand-in (C02 special-form clauses)")
 
@@ -37,7 +37,7 @@ contract(M + "PCBO.add_constraint_eq_zero", props=["C02", "C06", "C19"],
                   "implies(bden(P) == 0, %s == 0)" % _F,
                   "implies(bden(P) != 0, %s >= lam)" % _F,
                   "self._ancilla == old(self._ancilla)",
-                  "wf(self)", "result is self"])
+                  "wf(self)", "result is self", "implies(old(bk(self)), bk(self))"])
 
 
 # ---------------------------------------------------------------------------------- logic gates (C06)
@@ -132,7 +132,7 @@ contract(M + "_special_constraints_le_zero", props=["C02"], trusted=True,
                   "implies(result and bden(P) > 0, den(pcbo) - old(den(pcbo)) >= lam)",      # special forms never warn
                   "implies(result and bden(P) <= 0 and pcbo._ancilla == old(pcbo._ancilla), den(pcbo) == old(den(pcbo)))",
                   "implies(result and log_trick, pcbo._ancilla == old(pcbo._ancilla))",
-                  "pcbo._ancilla >= old(pcbo._ancilla)", "wf(pcbo)"],
+                  "pcbo._ancilla >= old(pcbo._ancilla)", "wf(pcbo)", "implies(old(bk(pcbo)), bk(pcbo))"],
          note="the four syntactic special forms of <= (sum <= 1, unary slack, OR form, x <= y) read key order and exact "
               "coefficient patterns: contract assumed, checked by the bounded clause C02.special_forms")
 
@@ -150,7 +150,8 @@ def _ineq(name, holds, loops=None):
                       "implies((%s) and %s == 0, %s == 0)" % (holds, _N, _F),
                       "implies((%s) and log_trick and slackval(old(self._ancilla), %s, True) == %s, %s == 0)"
                       % (holds, _N, "{WIT}", _F),
-                      "self._ancilla >= old(self._ancilla)", "wf(self)", "result is self"],
+                      "self._ancilla >= old(self._ancilla)", "wf(self)", "result is self",
+                      "implies(old(bk(self)), bk(self))"],
              loops=loops or {})
 
 
@@ -188,7 +189,7 @@ contract(M + "PCBO.add_constraint_ne_zero", props=["C02", "C19"],
          ensures=[_F + " >= 0",
                   "implies(bden(P) == 0 and not warned_unsat(), %s >= lam)" % _F,
                   "implies(bden(P) != 0 and %s == 0, %s == 0)" % (_N, _F),
-                  "self._ancilla >= old(self._ancilla)", "wf(self)", "result is self"],
+                  "self._ancilla >= old(self._ancilla)", "wf(self)", "result is self", "implies(old(bk(self)), bk(self))"],
          loops={1: {"invariant": "bden(P) == pre(bden(P)) + " + _SGN + " and "
                                  "max_val == pre(max_val) + slackcap(visited, log_trick) and "
                                  "min_val == pre(min_val) - slackcap(visited, log_trick) and "
